@@ -71,6 +71,16 @@ def sdpRx (attrs : List (Bytes × Option Bytes)) (fid : Option (UInt32 × UInt32
       | some (p, _) => if ssrcs.contains p then p else 0
       | none => ssrcs.head?.getD 0 }
 
+/-- the same remote m-section applied to a transceiver that EXISTS already (`add_transceiver` / re-offer; the
+`found_transceiver` branch): SSRC, RTX SSRC and `apt` map are written only when an `a=ssrc` line gave a primary SSRC -/
+def sdpRxExisting (attrs : List (Bytes × Option Bytes)) (fid : Option (UInt32 × UInt32)) (ssrcs : List UInt32) : RxState :=
+  let primary : Option UInt32 := match fid with
+    | some (p, _) => if ssrcs.contains p then some p else none
+    | none => ssrcs.head?
+  match primary with
+  | some p => { apt := extractApt attrs [], rtxSsrc := fid.map (·.2), ssrc := p }
+  | none => { apt := [], rtxSsrc := none, ssrc := 0 }
+
 /-- one iteration of the receive loop for the main track: `maybe_unwrap_rtx`; whatever goes on to the
 depacketizer latches its SSRC as the primary one -/
 def RxState.step (st : RxState) (p : Packet) : RxState × Option Packet :=
